@@ -245,3 +245,70 @@ def oracle_generator(case, impl, m=None):
     elif not bad and impl['status'] == 'EXC':
         bad.append(('crash', 'raised %s on a valid input' % impl['err']))
     return bad
+
+
+# ------------------------------------------------------------ standard run ----
+def exhaustive_cases(kind, nmax, rng):
+    """every labelled graph on <= nmax nodes x weight modes x every non-empty initial set of
+    size <= 2 (SIR: also one initially recovered node), fixed dyadic rates"""
+    import itertools
+    out = []
+    for n in range(1, nmax + 1):
+        for edges in R.all_graphs(n):
+            for mode in (0, 1, 2, 3):
+                ewl = 'tw' if mode & 1 else None; nwl = 'rw' if mode & 2 else None
+                if mode and (not edges and mode & 1): continue
+                labels = R.make_labels(rng, n)
+                ew = [F(rng.choice([1, 2, 4]), rng.choice([1, 2])) for _ in edges]
+                nw = [F(rng.choice([1, 2, 3]), rng.choice([1, 2])) for _ in range(n)]
+                gc = R.graph_from_edges(n, edges, labels, False, ewl, nwl, ew, nw)
+                for k in (1, 2):
+                    for sel in itertools.combinations(range(n), k):
+                        i0 = [labels[i] for i in sel]
+                        rest = [labels[i] for i in range(n) if i not in sel]
+                        r0s = [None] + ([[rest[0]]] if kind == 'SIR' and rest else [])
+                        for r0 in r0s:
+                            tmin = F(rng.choice([0, 1, -2]))
+                            out.append({'kind': kind, 'gc': gc, 'tau': F(1), 'gamma': F(1, 2), 'full': bool(len(out) % 2),
+                                        'tmin': tmin, 'tmax': None if kind == 'SIR' else tmin + F(7, 4), 'rho': None,
+                                        'r0': r0, 'i0': i0, 'i0_form': 'list'})
+    return out
+
+
+def standard_run(run, EoN, sim, kind, tier, res=None):
+    from . import sim_check as SC
+    import sys
+    lib = sys.modules[__name__]
+    rng = run.rng
+    nontriv = lambda case, m, impl: m['status'] == 'OK' and len(m.get('rows', [])) >= 3
+    # corpus first
+    corpus = [case_from_json(j) for j in C.load_corpus('gil_' + kind)]
+    res = SC.run_cases(lib, EoN, sim, corpus, ['D %d %s' % (len(j['draws']), R.qtoks([F(x) for x in j['draws']])) for j in C.load_corpus('gil_' + kind)],
+                       oracle_generator, nontriv, res, 'corpus')
+    # model-guided exhaustive exploration of small graphs
+    ex = exhaustive_cases(kind, 3 if tier == 'quick' else 4, rng)
+    if tier == 'quick':
+        pass
+    elif len(ex) > 6000:
+        ex = ex[::len(ex) // 6000 + 1]
+    modes = ['A %d %d 1 %s' % (40 if kind == 'SIR' else 16, 120 if tier == 'quick' else 300, C.qtok(F(1, 2))) for _ in ex]
+    res = SC.run_cases(lib, EoN, sim, ex, modes, oracle_generator, nontriv, res, 'exhaustive')
+    # random
+    n = 3000 if tier == 'quick' else 40000
+    cases = [gen_case(rng, kind, nmax=7 if i % 4 else 12, malformed=(i % 25 == 0)) for i in range(n)]
+    res = SC.run_cases(lib, EoN, sim, cases, ['W ' + R.ent_tokens(rng) for _ in cases], oracle_generator, nontriv, res, 'random')
+    return res
+
+
+def replay(rp):
+    EoN = C.import_eon()
+    import EoN.simulation as sim
+    j = rp['replay']
+    case = case_from_json(j)
+    draws = [F(x) for x in j.get('draws', [])]
+    impl = run_impl(EoN, sim, case, draws)
+    print('case:', {k: v for k, v in j.items() if k != 'graph'}); print('graph:', j['graph'])
+    print('implementation:', {k: v for k, v in impl.items() if k not in ('inv',)})
+    bad = oracle_generator(case, impl, {'draws': draws})
+    print('oracle verdict:', bad or 'holds')
+    return 1 if bad else 0
